@@ -2,16 +2,22 @@
 //! source, built with the real CLI and run; the printed event trace is compared with the Lean
 //! model of the code generator (`runCompiled`), and with an independent structural semantics
 //! written here from the property text (the oracle).
+//!
+//! A `defer` holds a *body* (`defer { ... }`): prints, nested blocks and loops with their own
+//! labels, `if`, nested `defer`s, and `break`/`continue` whose targets are inside the body
+//! (HIR rejects jumps that leave a defer; `return`/`.try` are always rejected there).
 use crate::e2e::{self, Program};
 use crate::lean;
 use crate::report::Report;
 use crate::rng::Rng;
 use serde_json::json;
+use std::collections::BTreeSet;
 
-#[derive(Clone, Debug)]
+#[derive(Clone, Debug, PartialEq)]
 pub enum Stmt {
     Print(u32),
-    Defer(u32),
+    /// `defer { body }`; `[Print(c)]` is the atomic defer `defer core.println(c)`
+    Defer(Vec<Stmt>),
     Block(Option<u32>, Vec<Stmt>),
     Loop(u32, Vec<Stmt>),
     If(Vec<Stmt>),
@@ -22,6 +28,11 @@ pub enum Stmt {
 
 const NDEC: usize = 48;
 
+fn sexp_inner(stmts: &[Stmt]) -> String {
+    let s = sexp(stmts);
+    s[1..s.len() - 1].to_string()
+}
+
 pub fn sexp(stmts: &[Stmt]) -> String {
     let mut s = String::from("(");
     for (i, st) in stmts.iter().enumerate() {
@@ -30,26 +41,24 @@ pub fn sexp(stmts: &[Stmt]) -> String {
         }
         match st {
             Stmt::Print(c) => s.push_str(&format!("(print {c})")),
-            Stmt::Defer(c) => s.push_str(&format!("(defer {c})")),
+            Stmt::Defer(b) => match b.as_slice() {
+                [Stmt::Print(c)] => s.push_str(&format!("(defer {c})")),
+                _ if b.is_empty() => s.push_str("(defer)"),
+                _ => s.push_str(&format!("(defer {})", sexp_inner(b))),
+            },
             Stmt::Block(l, b) => {
-                let inner = sexp(b);
-                s.push_str(&format!("(block {} {})", l.map(|x| x.to_string()).unwrap_or("-".into()), &inner[1..inner.len() - 1]));
+                s.push_str(&format!("(block {} {})", l.map(|x| x.to_string()).unwrap_or("-".into()), sexp_inner(b)));
             }
-            Stmt::Loop(l, b) => {
-                let inner = sexp(b);
-                s.push_str(&format!("(loop {l} {})", &inner[1..inner.len() - 1]));
-            }
-            Stmt::If(b) => {
-                let inner = sexp(b);
-                s.push_str(&format!("(if {})", &inner[1..inner.len() - 1]));
-            }
+            Stmt::Loop(l, b) => s.push_str(&format!("(loop {l} {})", sexp_inner(b))),
+            Stmt::If(b) => s.push_str(&format!("(if {})", sexp_inner(b))),
             Stmt::Brk(l) => s.push_str(&format!("(brk {l})")),
             Stmt::Cont(l) => s.push_str(&format!("(cont {l})")),
             Stmt::Try(l) => s.push_str(&format!("(try {l})")),
         }
     }
     s.push(')');
-    s
+    // "(block - )" etc. for empty bodies: normalise the trailing blank
+    s.replace(" )", ")")
 }
 
 fn capy(stmts: &[Stmt], ind: usize, out: &mut String) {
@@ -57,7 +66,18 @@ fn capy(stmts: &[Stmt], ind: usize, out: &mut String) {
     for st in stmts {
         match st {
             Stmt::Print(c) => out.push_str(&format!("{pad}core.println({c});\n")),
-            Stmt::Defer(c) => out.push_str(&format!("{pad}defer core.println({c});\n")),
+            // the atomic defer is printed both ways: as a bare call (no block, no frame) and
+            // as a one-statement block
+            Stmt::Defer(b) if matches!(b.as_slice(), [Stmt::Print(c)] if c % 2 == 1) => {
+                if let [Stmt::Print(c)] = b.as_slice() {
+                    out.push_str(&format!("{pad}defer core.println({c});\n"));
+                }
+            }
+            Stmt::Defer(b) => {
+                out.push_str(&format!("{pad}defer {{\n"));
+                capy(b, ind + 1, out);
+                out.push_str(&format!("{pad}}};\n"));
+            }
             Stmt::Block(l, b) => {
                 match l {
                     Some(l) => out.push_str(&format!("{pad}`b{l}: {{\n")),
@@ -105,7 +125,135 @@ pub fn to_capy(body: &[Stmt], oracles: &[Vec<bool>]) -> String {
     s
 }
 
+// ---- static shape helpers -------------------------------------------------------------------
+
+/// does `stmts` contain (anywhere, also inside nested defer bodies) a statement satisfying `f`
+fn any(stmts: &[Stmt], f: &dyn Fn(&Stmt) -> bool) -> bool {
+    count(stmts, f) > 0
+}
+
+fn count(stmts: &[Stmt], f: &dyn Fn(&Stmt) -> bool) -> usize {
+    stmts
+        .iter()
+        .map(|s| {
+            (if f(s) { 1 } else { 0 })
+                + match s {
+                    Stmt::Block(_, b) | Stmt::Loop(_, b) | Stmt::If(b) | Stmt::Defer(b) => count(b, f),
+                    _ => 0,
+                }
+        })
+        .sum()
+}
+
+fn is_jump(s: &Stmt) -> bool {
+    matches!(s, Stmt::Brk(_) | Stmt::Cont(_) | Stmt::Try(_))
+}
+
+fn is_atomic(b: &[Stmt]) -> bool {
+    matches!(b, [Stmt::Print(_)])
+}
+
+/// labels declared in `stmts` outside deferred bodies
+fn declared(stmts: &[Stmt], out: &mut BTreeSet<u32>) {
+    for s in stmts {
+        match s {
+            Stmt::Block(l, b) => {
+                if let Some(l) = l {
+                    out.insert(*l);
+                }
+                declared(b, out);
+            }
+            Stmt::Loop(l, b) => {
+                out.insert(*l);
+                declared(b, out);
+            }
+            Stmt::If(b) => declared(b, out),
+            _ => {}
+        }
+    }
+}
+
+/// the kinds of jump in `stmts` (outside deferred bodies) that leave `stmts`
+fn escaping(stmts: &[Stmt], out: &mut BTreeSet<&'static str>) {
+    let mut decl = BTreeSet::new();
+    declared(stmts, &mut decl);
+    fn walk(stmts: &[Stmt], decl: &BTreeSet<u32>, out: &mut BTreeSet<&'static str>) {
+        for s in stmts {
+            match s {
+                Stmt::Block(_, b) | Stmt::Loop(_, b) | Stmt::If(b) => walk(b, decl, out),
+                Stmt::Brk(0) => {
+                    out.insert("return");
+                }
+                Stmt::Brk(l) if !decl.contains(l) => {
+                    out.insert("break");
+                }
+                Stmt::Cont(l) if !decl.contains(l) => {
+                    out.insert("continue");
+                }
+                Stmt::Try(_) => {
+                    out.insert("try");
+                }
+                _ => {}
+            }
+        }
+    }
+    walk(stmts, &decl, out);
+}
+
+/// Static coverage of the defer-body shapes (one label per shape present in the program).
+fn shapes(stmts: &[Stmt], in_defer: bool, out: &mut BTreeSet<String>) {
+    let mut earlier_defer = false;
+    for (i, s) in stmts.iter().enumerate() {
+        match s {
+            Stmt::Defer(b) => {
+                if in_defer {
+                    out.insert("defer-body:nested-defer".into());
+                }
+                if !is_atomic(b) {
+                    out.insert("defer-body:non-trivial".into());
+                    if any(b, &|s| matches!(s, Stmt::Loop(..))) {
+                        out.insert("defer-body:inner-loop".into());
+                    }
+                    if any(b, &|s| matches!(s, Stmt::Cont(_))) {
+                        out.insert("defer-body:inner-continue".into());
+                    }
+                    if any(b, &|s| matches!(s, Stmt::Brk(_))) {
+                        out.insert("defer-body:inner-break".into());
+                    }
+                    if any(b, &|s| matches!(s, Stmt::Block(Some(_), _))) {
+                        out.insert("defer-body:inner-labelled-block".into());
+                    }
+                    if any(b, &|s| matches!(s, Stmt::If(_))) {
+                        out.insert("defer-body:inner-if".into());
+                    }
+                    if earlier_defer {
+                        out.insert("defer-body:after-earlier-defer-of-same-frame".into());
+                    }
+                    // the re-entrancy shape: a deferred body with a jump of its own, registered
+                    // after another defer of the same frame, and the frame is left by a jump
+                    if earlier_defer && any(b, &is_jump) {
+                        let mut kinds = BTreeSet::new();
+                        escaping(&stmts[i + 1..], &mut kinds);
+                        for k in kinds {
+                            out.insert(format!("reentrant-unwind:frame-left-via-{k}"));
+                        }
+                    }
+                }
+                shapes(b, true, out);
+                earlier_defer = true;
+            }
+            Stmt::Block(_, b) | Stmt::Loop(_, b) | Stmt::If(b) => shapes(b, in_defer, out),
+            _ => {}
+        }
+    }
+}
+
 // ---- the oracle: structural semantics written from the property text ---------------------
+//
+// "Each executed defer runs exactly once, in LIFO order, on every exit path": a block
+// activation that is left — by falling off its end, `break`, `continue`, `return` or `.try`
+// propagation — runs the deferred bodies registered in it so far, newest first, each once.
+// Running a deferred body is itself a block activation (own registrations, own jumps).
 
 #[derive(Clone, Copy, PartialEq, Debug)]
 enum Sig {
@@ -118,6 +266,9 @@ struct Run<'a> {
     trace: Vec<u32>,
     oracle: &'a [bool],
     pos: usize,
+    /// dynamic coverage: what this run actually executed
+    dynamic: BTreeSet<&'static str>,
+    in_defer: u32,
 }
 
 impl<'a> Run<'a> {
@@ -128,8 +279,8 @@ impl<'a> Run<'a> {
     }
     /// Runs the statements of one block activation; on leaving (any way) runs what was
     /// registered in it, newest first.
-    fn block(&mut self, stmts: &[Stmt]) -> Sig {
-        let mut regs: Vec<u32> = vec![];
+    fn block(&mut self, stmts: &'a [Stmt]) -> Sig {
+        let mut regs: Vec<&'a [Stmt]> = vec![];
         let mut sig = Sig::Normal;
         for st in stmts {
             sig = self.stmt(st, &mut regs);
@@ -137,19 +288,38 @@ impl<'a> Run<'a> {
                 break;
             }
         }
-        for c in regs.iter().rev() {
-            self.trace.push(*c);
+        if sig != Sig::Normal && !regs.is_empty() {
+            self.dynamic.insert("ran:frame-with-defers-left-by-jump");
+            if regs.iter().any(|b| !is_atomic(b)) {
+                self.dynamic.insert("ran:frame-with-block-defer-left-by-jump");
+            }
+            // a later-registered body with its own jump, above an earlier defer
+            if regs.iter().skip(1).any(|b| any(b, &is_jump)) {
+                self.dynamic.insert("ran:reentrant-unwind");
+            }
+        }
+        for b in regs.iter().rev() {
+            self.in_defer += 1;
+            let s = self.block(b);
+            self.in_defer -= 1;
+            if s != Sig::Normal {
+                // impossible for accepted programs (HIR: no jump leaves a defer)
+                self.dynamic.insert("ILL-FORMED:jump-left-a-defer");
+            }
         }
         sig
     }
-    fn stmt(&mut self, st: &Stmt, regs: &mut Vec<u32>) -> Sig {
+    fn stmt(&mut self, st: &'a Stmt, regs: &mut Vec<&'a [Stmt]>) -> Sig {
         match st {
             Stmt::Print(c) => {
                 self.trace.push(*c);
                 Sig::Normal
             }
-            Stmt::Defer(c) => {
-                regs.push(*c);
+            Stmt::Defer(b) => {
+                regs.push(b.as_slice());
+                if self.in_defer > 0 {
+                    self.dynamic.insert("ran:defer-registered-inside-defer-body");
+                }
                 Sig::Normal
             }
             Stmt::Block(l, b) => match self.block(b) {
@@ -173,12 +343,21 @@ impl<'a> Run<'a> {
                     match self.block(b) {
                         Sig::Normal => {}
                         Sig::Brk(t) if t == *l => return Sig::Normal,
-                        Sig::Cont(t) if t == *l => {}
+                        Sig::Cont(t) if t == *l => {
+                            if self.in_defer > 0 {
+                                self.dynamic.insert("ran:continue-inside-defer-body");
+                            }
+                        }
                         s => return s,
                     }
                 }
             }
-            Stmt::Brk(l) => Sig::Brk(*l),
+            Stmt::Brk(l) => {
+                if self.in_defer > 0 {
+                    self.dynamic.insert("ran:break-inside-defer-body");
+                }
+                Sig::Brk(*l)
+            }
             Stmt::Cont(l) => Sig::Cont(*l),
             Stmt::Try(l) => {
                 if self.decide() {
@@ -191,10 +370,14 @@ impl<'a> Run<'a> {
     }
 }
 
-pub fn spec_trace(body: &[Stmt], oracle: &[bool]) -> Vec<u32> {
-    let mut r = Run { trace: vec![], oracle, pos: 0 };
+pub fn spec_run<'a>(body: &'a [Stmt], oracle: &'a [bool]) -> (Vec<u32>, BTreeSet<&'static str>) {
+    let mut r = Run { trace: vec![], oracle, pos: 0, dynamic: BTreeSet::new(), in_defer: 0 };
     let _ = r.block(body); // the function body is the block `return` targets
-    r.trace
+    (r.trace, r.dynamic)
+}
+
+pub fn spec_trace(body: &[Stmt], oracle: &[bool]) -> Vec<u32> {
+    spec_run(body, oracle).0
 }
 
 // ---- generator ---------------------------------------------------------------------------
@@ -206,8 +389,9 @@ struct Gen<'a> {
 }
 
 impl<'a> Gen<'a> {
-    /// ctx: enclosing labelled constructs, innermost last: (label, is_loop)
-    fn stmts(&mut self, depth: u32, ctx: &mut Vec<(u32, bool)>, in_loop_body: bool) -> Vec<Stmt> {
+    /// ctx: enclosing labelled constructs *inside the current defer body* (or the function),
+    /// innermost last: (label, is_loop). `ddepth` = how many defer bodies enclose us.
+    fn stmts(&mut self, depth: u32, ctx: &mut Vec<(u32, bool)>, in_loop_body: bool, ddepth: u32) -> Vec<Stmt> {
         let n = 1 + self.rng.below(5) as usize;
         let mut out = vec![];
         let mut defers = 0;
@@ -218,14 +402,15 @@ impl<'a> Gen<'a> {
                 out.push(Stmt::Print(self.ev()));
             } else if choice < 47 && defers < 3 {
                 defers += 1;
-                out.push(Stmt::Defer(self.ev()));
+                let b = self.defer_body(depth, ddepth);
+                out.push(Stmt::Defer(b));
             } else if choice < 57 && depth < 4 {
                 let labelled = self.rng.chance(2, 3);
                 let l = if labelled { Some(self.label()) } else { None };
                 if let Some(l) = l {
                     ctx.push((l, false));
                 }
-                let b = self.stmts(depth + 1, ctx, false);
+                let b = self.stmts(depth + 1, ctx, false, ddepth);
                 if l.is_some() {
                     ctx.pop();
                 }
@@ -233,33 +418,180 @@ impl<'a> Gen<'a> {
             } else if choice < 69 && depth < 4 {
                 let l = self.label();
                 ctx.push((l, true));
-                let b = self.stmts(depth + 1, ctx, true);
+                let b = self.stmts(depth + 1, ctx, true, ddepth);
                 ctx.pop();
                 out.push(Stmt::Loop(l, b));
             } else if choice < 86 && depth < 5 {
                 // conditional jump or conditional nested statements
-                let b = if self.rng.chance(3, 5) { vec![self.jump(ctx)] } else { self.stmts(depth + 1, ctx, false) };
+                let b = if self.rng.chance(3, 5) { vec![self.jump(ctx, ddepth)] } else { self.stmts(depth + 1, ctx, false, ddepth) };
                 out.push(Stmt::If(b));
-            } else if choice < 92 {
+            } else if choice < 92 && ddepth == 0 {
                 out.push(Stmt::Try(0));
             } else if last && (depth > 0 || in_loop_body) {
                 // an unconditional jump as the last statement of a nested block
-                out.push(self.jump(ctx));
+                out.push(self.jump(ctx, ddepth));
             } else {
                 out.push(Stmt::Print(self.ev()));
             }
         }
         out
     }
-    fn jump(&mut self, ctx: &[(u32, bool)]) -> Stmt {
+    /// a jump that HIR accepts here: inside a defer body only to labels of that body
+    fn jump(&mut self, ctx: &[(u32, bool)], ddepth: u32) -> Stmt {
         let loops: Vec<u32> = ctx.iter().filter(|c| c.1).map(|c| c.0).collect();
         if !loops.is_empty() && self.rng.chance(1, 3) {
             return Stmt::Cont(*self.rng.pick(&loops));
+        }
+        if ddepth > 0 {
+            if ctx.is_empty() {
+                return Stmt::Print(self.ev());
+            }
+            return Stmt::Brk(self.rng.pick(ctx).0);
         }
         if self.rng.chance(1, 4) || ctx.is_empty() {
             return Stmt::Brk(0);
         }
         Stmt::Brk(self.rng.pick(ctx).0)
+    }
+    /// `i: while ? { [defer ..;] [print;] if ? { continue i | break i } [print] }`
+    fn inner_loop(&mut self, depth: u32, ddepth: u32) -> Stmt {
+        let l = self.label();
+        let mut b = vec![];
+        if self.rng.chance(1, 3) && ddepth < 3 {
+            let nb = self.defer_body(depth + 1, ddepth);
+            b.push(Stmt::Defer(nb));
+        }
+        if self.rng.chance(1, 2) {
+            b.push(Stmt::Print(self.ev()));
+        }
+        let j = if self.rng.chance(1, 2) { Stmt::Cont(l) } else { Stmt::Brk(l) };
+        b.push(Stmt::If(vec![j]));
+        if self.rng.chance(2, 3) {
+            b.push(Stmt::Print(self.ev()));
+        }
+        Stmt::Loop(l, b)
+    }
+    /// the body of a `defer` that is itself inside `ddepth` defer bodies
+    fn defer_body(&mut self, depth: u32, ddepth: u32) -> Vec<Stmt> {
+        let r = if ddepth >= 3 { 0 } else { self.rng.below(100) };
+        let dd = ddepth + 1;
+        if r < 42 {
+            vec![Stmt::Print(self.ev())]
+        } else if r < 64 {
+            // inner loop left/continued by a conditional jump
+            let mut b = vec![];
+            if self.rng.chance(1, 3) {
+                b.push(Stmt::Defer(self.defer_body(depth + 1, dd)));
+            }
+            b.push(self.inner_loop(depth + 1, dd));
+            b.push(Stmt::Print(self.ev()));
+            b
+        } else if r < 76 {
+            // nested defers inside the deferred block
+            let mut b = vec![Stmt::Defer(self.defer_body(depth + 1, dd))];
+            b.push(Stmt::Print(self.ev()));
+            if self.rng.chance(1, 2) {
+                b.push(Stmt::Defer(self.defer_body(depth + 1, dd)));
+            }
+            if self.rng.chance(1, 3) {
+                b.push(self.inner_loop(depth + 1, dd));
+            }
+            b
+        } else if r < 86 {
+            // labelled block left early
+            let l = self.label();
+            let mut inner = vec![];
+            if self.rng.chance(1, 2) {
+                inner.push(Stmt::Defer(self.defer_body(depth + 1, dd)));
+            }
+            inner.push(Stmt::If(vec![Stmt::Brk(l)]));
+            inner.push(Stmt::Print(self.ev()));
+            vec![Stmt::Block(Some(l), inner), Stmt::Print(self.ev())]
+        } else {
+            let mut ctx = vec![];
+            self.stmts((depth + 1).max(2), &mut ctx, false, dd)
+        }
+    }
+    /// A frame holding an earlier defer, then a deferred block with control flow of its own,
+    /// which is then left by a jump — placed in the function body, a labelled block or a
+    /// loop body, with random statements around.
+    fn scenario(&mut self) -> Vec<Stmt> {
+        let mut frame = vec![];
+        if self.rng.chance(1, 3) {
+            frame.push(Stmt::Print(self.ev()));
+        }
+        let first = if self.rng.chance(2, 3) { vec![Stmt::Print(self.ev())] } else { self.defer_body(1, 0) };
+        frame.push(Stmt::Defer(first));
+        if self.rng.chance(1, 3) {
+            frame.push(Stmt::Defer(vec![Stmt::Print(self.ev())]));
+        }
+        // the deferred block with a jump of its own
+        let mut b = vec![];
+        if self.rng.chance(1, 3) {
+            b.push(Stmt::Defer(self.defer_body(2, 1)));
+        }
+        if self.rng.chance(3, 4) {
+            b.push(self.inner_loop(2, 1));
+        } else {
+            let l = self.label();
+            b.push(Stmt::Block(Some(l), vec![Stmt::If(vec![Stmt::Brk(l)]), Stmt::Print(self.ev())]));
+        }
+        b.push(Stmt::Print(self.ev()));
+        frame.push(Stmt::Defer(b));
+        if self.rng.chance(1, 3) {
+            frame.push(Stmt::Defer(self.defer_body(1, 0)));
+        }
+        if self.rng.chance(1, 2) {
+            frame.push(Stmt::Print(self.ev()));
+        }
+        let kind = self.rng.below(3);
+        let mut out = vec![];
+        if self.rng.chance(1, 2) {
+            out.push(Stmt::Defer(vec![Stmt::Print(self.ev())]));
+        }
+        match kind {
+            0 => {
+                // the function body itself, left by return / .try
+                match self.rng.below(3) {
+                    0 => frame.push(Stmt::If(vec![Stmt::Print(self.ev()), Stmt::Brk(0)])),
+                    1 => frame.push(Stmt::Try(0)),
+                    _ => {
+                        let l = self.label();
+                        frame.push(Stmt::Loop(l, vec![Stmt::Defer(vec![Stmt::Print(self.ev())]), Stmt::If(vec![Stmt::Brk(0)]), Stmt::Print(self.ev())]));
+                    }
+                }
+                frame.push(Stmt::Print(self.ev()));
+                out.extend(frame);
+            }
+            1 => {
+                let l = self.label();
+                match self.rng.below(3) {
+                    0 => frame.push(Stmt::If(vec![Stmt::Brk(l)])),
+                    1 => frame.push(Stmt::If(vec![Stmt::Brk(0)])),
+                    _ => frame.push(Stmt::Try(0)),
+                }
+                frame.push(Stmt::Print(self.ev()));
+                out.push(Stmt::Block(Some(l), frame));
+                out.push(Stmt::Print(self.ev()));
+            }
+            _ => {
+                let l = self.label();
+                frame.push(Stmt::If(vec![Stmt::Print(self.ev()), Stmt::Cont(l)]));
+                match self.rng.below(3) {
+                    0 => frame.push(Stmt::If(vec![Stmt::Brk(l)])),
+                    1 => frame.push(Stmt::If(vec![Stmt::Brk(0)])),
+                    _ => frame.push(Stmt::Try(0)),
+                }
+                out.push(Stmt::Loop(l, frame));
+                out.push(Stmt::Print(self.ev()));
+            }
+        }
+        if self.rng.chance(1, 3) {
+            let mut ctx = vec![];
+            let more = self.stmts(2, &mut ctx, false, 0);
+            out.extend(more);
+        }
+        out
     }
     fn ev(&mut self) -> u32 {
         self.next_event += 1;
@@ -272,22 +604,13 @@ impl<'a> Gen<'a> {
 }
 
 pub fn gen_program(rng: &mut Rng) -> Vec<Stmt> {
+    let scenario = rng.chance(2, 5);
     let mut g = Gen { rng, next_event: 0, next_label: 0 };
+    if scenario {
+        return g.scenario();
+    }
     let mut ctx = vec![];
-    g.stmts(0, &mut ctx, false)
-}
-
-fn count(stmts: &[Stmt], f: &dyn Fn(&Stmt) -> bool) -> usize {
-    stmts
-        .iter()
-        .map(|s| {
-            (if f(s) { 1 } else { 0 })
-                + match s {
-                    Stmt::Block(_, b) | Stmt::Loop(_, b) | Stmt::If(b) => count(b, f),
-                    _ => 0,
-                }
-        })
-        .sum()
+    g.stmts(0, &mut ctx, false, 0)
 }
 
 fn parse_traces(stdout: &str) -> Vec<Vec<u32>> {
@@ -307,17 +630,36 @@ fn fmt(t: &[u32]) -> String {
     t.iter().map(|x| x.to_string()).collect::<Vec<_>>().join(",")
 }
 
+fn d(c: u32) -> Stmt {
+    Stmt::Defer(vec![Stmt::Print(c)])
+}
+
 fn corpus() -> Vec<Vec<Stmt>> {
     use Stmt::*;
     vec![
         // the two confirmed defects of the pinned tree (corpus/probes/C03_defer_break_continue.capy)
-        vec![Defer(1), Loop(10, vec![Defer(2), If(vec![Brk(10)]), Print(3)]), Print(4),
-             Loop(11, vec![Defer(5), If(vec![Cont(11)]), Print(6)]), Print(7)],
+        vec![d(1), Loop(10, vec![d(2), If(vec![Brk(10)]), Print(3)]), Print(4),
+             Loop(11, vec![d(5), If(vec![Cont(11)]), Print(6)]), Print(7)],
         // early break / return before a later defer of the same block
-        vec![Block(Some(5), vec![Defer(1), If(vec![Brk(5)]), Defer(2), Print(3)]), Print(4),
-             Defer(6), If(vec![Brk(0)]), Defer(7), Print(8)],
+        vec![Block(Some(5), vec![d(1), If(vec![Brk(5)]), d(2), Print(3)]), Print(4),
+             d(6), If(vec![Brk(0)]), d(7), Print(8)],
         // jump out of a loop nested inside blocks with their own defers
-        vec![Defer(1), Block(Some(2), vec![Defer(3), Loop(4, vec![Defer(5), Block(None, vec![Defer(6), If(vec![Brk(2)]), If(vec![Cont(4)]), Try(0)]), Print(7)]), Print(8)]), Print(9)],
+        vec![d(1), Block(Some(2), vec![d(3), Loop(4, vec![d(5), Block(None, vec![d(6), If(vec![Brk(2)]), If(vec![Cont(4)]), Try(0)]), Print(7)]), Print(8)]), Print(9)],
+        // seeded/C03_1 demo, `with_break` / `with_untaken_break`: two defers, the later one has a
+        // loop with a `break` of its own; the function is left by `return` or by falling off
+        vec![d(1), Defer(vec![Loop(5, vec![If(vec![Brk(5)]), Print(6)]), Print(2)]),
+             If(vec![Print(3), Brk(0)]), Print(4)],
+        // seeded/C03_1 demo, `in_loop`: three defers in a loop body left by `continue` / `break`;
+        // the last one has a loop with a `continue` of its own
+        vec![Loop(6, vec![d(1), d(2), Defer(vec![Loop(7, vec![If(vec![Cont(7)]), Print(8)]), Print(3)]),
+                          If(vec![Print(4), Cont(6)]), If(vec![Print(5), Brk(6)])]), Print(9)],
+        // the same frame left by `.try`, the deferred block holds a nested defer and a labelled block
+        vec![d(1), Defer(vec![d(10), Block(Some(3), vec![d(11), If(vec![Brk(3)]), Print(12)]), Print(2)]),
+             Try(0), Print(4)],
+        // defer body with a loop, a conditional `continue` and a nested defer in the loop body
+        // (the `deferLoop` example of Props/C03.lean)
+        vec![d(1), Defer(vec![Loop(5, vec![d(2), If(vec![Cont(5)]), Print(3)]), Print(4)]),
+             If(vec![Brk(0)]), Print(6)],
     ]
 }
 
@@ -325,7 +667,7 @@ pub fn run(tier: &str, seed: u64, widen: bool) -> Report {
     let mut rep = Report::new(
         "C03",
         "real capy CLI + built executable (event trace on stdout) vs Lean model CapyV.Defer.runCompiled (and runSpec) on generated DeferLang programs",
-        "corpus of past failures first, then seeded random programs: <= 4 nested blocks/loops below the function body, <= 3 defers per block, break/continue/return/.try in every position (conditional and as last statement), each program run under 6 decision sequences of up to 48 decisions; non-trivial = the run executed a jump (break/continue/return/.try) with at least one defer registered in the program; distinct by (program, decisions)",
+        "corpus of past failures first (incl. the seeded/C03_1 demo), then seeded random programs: <= 4 nested blocks/loops below the function body, <= 3 defers per block, a defer holds a body (atomic print, or a block with inner labelled loops/blocks, if, conditional break/continue to inner labels, nested defers, <= 3 defer levels), break/continue/return/.try in every position (conditional and as last statement), 2 of 5 programs are built around a frame with an earlier defer + a deferred block with its own jump that is left by a jump; each program run under 6 decision sequences of up to 48 decisions; non-trivial = the program has a defer and a jump (break/continue/return/.try); distinct by (program, decisions)",
     );
     if !e2e::available() {
         rep.notes.push("capy CLI binary missing".into());
@@ -361,8 +703,13 @@ pub fn run(tier: &str, seed: u64, widen: bool) -> Report {
     for ((b, os), out) in cases.iter().zip(outcomes.iter()) {
         let sx = sexp(b);
         let has_defer = count(b, &|s| matches!(s, Stmt::Defer(_))) > 0;
-        let jumps = count(b, &|s| matches!(s, Stmt::Brk(_) | Stmt::Cont(_) | Stmt::Try(_)));
+        let jumps = count(b, &is_jump);
         rep.hit(&format!("jumps-in-program={}", jumps.min(6)));
+        let mut sh = BTreeSet::new();
+        shapes(b, false, &mut sh);
+        for s in &sh {
+            rep.hit(s);
+        }
         let traces = if out.built && out.run_status == Some(0) { Some(parse_traces(&out.stdout())) } else { None };
         if traces.is_none() {
             rep.hit(if out.built { "run-failed" } else { "not-built" });
@@ -370,11 +717,12 @@ pub fn run(tier: &str, seed: u64, widen: bool) -> Report {
         for (k, o) in os.iter().enumerate() {
             let model = answers[ai].clone();
             ai += 1;
-            let spec = spec_trace(b, o);
+            let (spec, dynamic) = spec_run(b, o);
+            for dflag in &dynamic {
+                rep.hit(dflag);
+            }
             let bits: String = o.iter().map(|x| if *x { '1' } else { '0' }).collect();
             let input = json!({"program": sx, "decisions": bits});
-            // did this run take a jump? (trace differs from the jump-free reading is hard to
-            // know; use: spec trace shorter than the number of prints+defers reachable)
             let nontrivial = has_defer && jumps > 0;
             rep.case(if nontrivial { Some(format!("{sx}|{bits}")) } else { None });
             let got = match &traces {
@@ -385,20 +733,19 @@ pub fn run(tier: &str, seed: u64, widen: bool) -> Report {
             if rep.evaluations % 97 == 1 {
                 rep.sample(json!({"program": sx, "decisions": bits, "trace": got}));
             }
-            let expect_model = format!("compiled={} spec={}", got, got);
             // model comparison: the compiled-code model must predict the real trace
             let model_compiled = model.split(' ').next().unwrap_or("").trim_start_matches("compiled=").to_string();
             if model != "?" && model_compiled != got {
                 rep.disagree(input.clone(), json!(got), json!(model));
             }
-            let _ = expect_model;
             // oracle: the structural semantics
             if got != fmt(&spec) {
+                let got_events: Vec<&str> = got.split(',').filter(|g| !g.is_empty()).collect();
                 let label = if traces.is_none() {
                     "program-not-built-or-crashed"
-                } else if spec.iter().filter(|c| !got.split(',').any(|g| g == c.to_string())).count() > 0 {
+                } else if spec.iter().any(|c| !got_events.iter().any(|g| *g == c.to_string())) {
                     "defer-or-event-missing"
-                } else if got.split(',').filter(|g| !g.is_empty()).count() > spec.len() {
+                } else if got_events.len() > spec.len() {
                     "defer-ran-twice-or-unreached-defer-ran"
                 } else {
                     "wrong-order"
